@@ -248,6 +248,8 @@ func CheckC02(e *Env) int {
 	})...)
 	// a struct and its pointer type from two different sources, fields selected from one of them
 	progs = append(progs, counterpartFamily("cp", e.Seed, e.tierN(2, 1))...)
+	// one type under two spellings (rune/int32, byte/uint8, any/interface{}) consumed three times
+	progs = append(progs, spellingTwinsFamily()...)
 	// a parameter named like a later local of an assignable type
 	progs = append(progs, paramLocalCollisionFamily()...)
 	// nothing to construct: the designated argument comes back, not another assignable one
